@@ -875,7 +875,9 @@ impl Machine {
             self.machine_st.e = or_frame.prelude.e;
             self.machine_st.cp = or_frame.prelude.cp;
 
-            or_frame.prelude.biip += iip_offset;
+            // iip_offset counts from the entry being executed, self.machine_st.iip,
+            // which lies beyond biip when a dynamic choice sequence skipped dead clauses.
+            or_frame.prelude.biip = self.machine_st.iip + iip_offset;
 
             let target_h = or_frame.prelude.h;
             let attr_var_queue_len = or_frame.prelude.attr_var_queue_len;
